@@ -22,6 +22,10 @@ pub struct Case {
     pub resume_after: u64,
     /// stop hook: (phase 0 before / 1 after, on mnemonic class 0 Nop 1 Mov 2 Add 3 Cmp 4 Jmp 5 Call 6 Ret, at the n-th invocation)
     pub stop: Option<(u8, u8, u64)>,
+    /// Some(n): the stack is an entry frame from init_stack_program_start with n arguments (argc, n
+    /// pointers, null, null = n + 3 entries) instead of an empty init_stack stack
+    #[serde(default)]
+    pub entry_frame: Option<u8>,
 }
 
 const STOP_MNEMS: [SupportedMnemonic; 7] = [SupportedMnemonic::Nop, SupportedMnemonic::Mov, SupportedMnemonic::Add, SupportedMnemonic::Cmp, SupportedMnemonic::Jmp, SupportedMnemonic::Call, SupportedMnemonic::Ret];
@@ -32,7 +36,11 @@ fn build(c: &Case, limit: Option<u64>) -> Result<Axecutor, String> {
     let img = prog::assemble(&c.prog, BASE);
     let mut ax = Axecutor::new(&img, BASE, BASE).map_err(|e| e.to_string())?;
     init_regs(&mut ax, c.seed);
-    ax.init_stack(0x800).map_err(|e| e.to_string())?;
+    match c.entry_frame {
+        None => ax.init_stack(0x800).map(|_| ()),
+        Some(n) => ax.init_stack_program_start(0x800, (0..n).map(|i| format!("arg{}", i)).collect(), vec![]).map(|_| ()),
+    }
+    .map_err(|e| e.to_string())?;
     if let Some(l) = limit {
         ax.set_max_instructions(l);
     }
@@ -103,7 +111,9 @@ impl Property for C11 {
                 *l = PI::Ret;
             }
         }
-        Case { prog: p, seed, limit_delta, resume_after, stop }
+        // 1/5: the stack holds an entry frame; it is empty only once the whole frame has been popped
+        let entry_frame = if t.below(5) == 0 { Some(t.below(2) as u8) } else { None };
+        Case { prog: p, seed, limit_delta, resume_after, stop, entry_frame }
     }
 
     fn exec(&mut self, c: &Case) -> CaseOut {
@@ -121,6 +131,8 @@ impl Property for C11 {
             Err(e) => return CaseOut::fail("HARNESS-FAULT|C11-build".into(), e),
         };
         let initial_rsp = b.reg_read_64(SR::RSP).unwrap();
+        // where RSP stands when the stack is empty
+        let empty_rsp = initial_rsp + c.entry_frame.map_or(0, |n| 8 * (n as u64 + 3));
         let mut k = 0u64; // successful steps
         let mut cause = "limit";
         let mut step_err = false;
@@ -168,7 +180,7 @@ impl Property for C11 {
                             return out;
                         }
                         // finish conditions
-                        let top_ret = i.mnemonic() == Mnemonic::Ret && rsp == initial_rsp;
+                        let top_ret = i.mnemonic() == Mnemonic::Ret && rsp == empty_rsp;
                         let expect_finish = after.rip == code_end || top_ret || stopped_by_hook;
                         if top_ret {
                             cause = "top-level-ret";
